@@ -40,8 +40,6 @@ def rdLine (it : Except NumErr Int) (v : Except NumErr F64.Bits) (collapse : Boo
     | .error e => s!"err:val-{errS (some e)}:file=f:line=1"
     | .ok b => s!"ok:iters={n}:val={F64.toHex (F64.canonNaN b)}"
 
-def toExceptI (r : IntRes) : Except NumErr Int := match r.err with | none => .ok r.val | some e => .error e
-def toExceptF (r : FloatRes) : Except NumErr F64.Bits := match r.err with | none => .ok r.val | some e => .error e
 
 def handle (l : Line) : IO Unit := do
   if l.kind != "case" then return
@@ -52,7 +50,7 @@ def handle (l : Line) : IO Unit := do
     let num := (l.bytes? "num").getD []
     let ai := atoi iters
     let ra := readerAtof num
-    IO.println s!"obs {id} rd={rdLine (toExceptI ai) (toExceptF ra)}"
+    IO.println s!"obs {id} rd={rdLine ai.toExcept ra.toExcept}"
     IO.println s!"obs {id} pf={fr (parseFloat num)} ra={fr ra} ai={ir ai} pi={ir (parseInt iters)} pu={ur (parseUint iters)} uok={b01 (underscoreOK num)}"
     let sp := match special num with | some b => F64.toHex (F64.canonNaN b) | none => "-"
     let r := readFloat num
